@@ -321,6 +321,13 @@ func runF(op string, in M) (M, M) {
 				wg.Add(1)
 				go func(j job) {
 					defer wg.Done()
+					defer func() { // a panic of the code under test in this goroutine is an answer, not the end of the driver
+						if r := recover(); r != nil {
+							mu.Lock()
+							msg = fmt.Sprint("verif: panic in a call made concurrently with other calls: ", r)
+							mu.Unlock()
+						}
+					}()
 					for rep := 0; rep < 4 || time.Now().Before(deadline); rep++ {
 						pi := Prove(NewKeyFromSeed(j.seed), j.alpha).Bytes()
 						ok, beta := Verify(j.pub, j.alpha, j.pi)
